@@ -1,9 +1,10 @@
 INIT SInit
 NEXT SNext
 CONSTANTS
+  GapSet = "base"
   Budget = 1000000
   Mutants = FALSE
   GenFamilies = {}
   SimFamilies = {"full", "gap2"}
-INVARIANTS Emit
+INVARIANTS TypeOK DoneLegal DeviationsCounted Emit
 CHECK_DEADLOCK FALSE
